@@ -329,14 +329,7 @@ def r6_semantics(ctx):
     # negation
     cref = cfg.operators.get("not")
     if cref is not None:
-        r = ctx.repo.method(cref.module, cref.node, "operate_unary")
-        if r:
-            m, c, fn = r
-            got = [norm(s) for s in fn.body]
-            ok = len(got) == 2 and got[0].endswith("= tokens.get_right()") and \
-                got[1] == f"tokens.put_right({got[0].split(' = ')[0]}.logical_not())"
-            ctx.form(ok, m.relpath, f"{c.name}.operate_unary", "negates the token to its right and re-queues it",
-                      detail=got)
+        negation_table(ctx, cref)
     # atom dunders
     acls = ctx.repo.cls(ATOM, "AtomBase")
     nd = 0
@@ -360,6 +353,71 @@ def r6_semantics(ctx):
                 ctx.check(t == ATOM_UNARY[mname], ATOM, f"AtomBase.{mname}", "value term", detail=t,
                           expected=ATOM_UNARY[mname])
     ctx.floor("atom methods", nd, 21)
+
+
+class NotHandler(Handler):
+    """operate_unary of the negation operator for one kind of right neighbour."""
+
+    def __init__(self, repo, module, rkind, extra_true=()):
+        super().__init__()
+        self.repo, self.module, self.rkind = repo, module, rkind
+        self.env = {}
+        self.queue = ["R1", "R2"]          # symbolic tokens waiting on the right
+        self.out = []
+        self.extra_true = extra_true
+
+    def test(self, node):
+        ia = isinstance_args(node)
+        if ia and isinstance(ia[0], ast.Name) and ia[0].id in self.env:
+            v = self.env[ia[0].id]
+            names = [norm(t) for t in ia[1]]
+            if any(n.endswith("Not") or n == "OperatorNot" for n in names):
+                return v == "R1" and self.rkind == "Not"
+            if set(names) <= {"bool", "np.bool_", "numpy.bool_"}:
+                return self.rkind == "bool" and not v.startswith("wrap(")
+        return None
+
+    def stmt(self, node):
+        s = norm(node)
+        if isinstance(node, ast.Assign) and len(node.targets) == 1 and isinstance(node.targets[0], ast.Name):
+            t = node.targets[0].id
+            if norm(node.value) == "tokens.get_right()":
+                self.env[t] = self.queue.pop(0)
+                return
+            if isinstance(node.value, ast.Call) and len(node.value.args) == 1 and norm(node.value.args[0]) == t and isinstance(node.value.func, ast.Name):
+                self.env[t] = f"wrap({self.env[t]})"
+                return
+        if isinstance(node, ast.Expr) and isinstance(node.value, ast.Call):
+            c = node.value
+            if isinstance(c.func, ast.Attribute) and c.func.attr == "operate_unary" and isinstance(c.func.value, ast.Name) \
+                    and self.env.get(c.func.value.id) == "R1" and [norm(a) for a in c.args] == ["tokens"]:
+                nxt = self.queue.pop(0)
+                self.queue.insert(0, f"not({nxt})")      # the inner negation consumed its operand and re-queued the result
+                return
+            if norm(c.func) == "tokens.put_right" and len(c.args) == 1:
+                a = c.args[0]
+                if isinstance(a, ast.Call) and isinstance(a.func, ast.Attribute) and a.func.attr == "logical_not" and isinstance(a.func.value, ast.Name):
+                    self.out.append(f"not({self.env.get(a.func.value.id)})")
+                    return
+        raise Unrecognised(f"statement {s}")
+
+
+def negation_table(ctx, cref, rule=None, kinds=("atom", "Not")):
+    r = ctx.repo.method(cref.module, cref.node, "operate_unary")
+    if r is None:
+        return
+    m, c, fn = r
+    ctx.functions_analysed.add(f"{m.relpath}::{c.name}.operate_unary")
+    for rk in kinds:
+        h = NotHandler(ctx.repo, m, rk)
+        cell = f"negation cell right={rk}"
+        try:
+            run_block(fn.body, h)
+        except Unrecognised as e:
+            ctx.unrecognised(m.relpath, f"{c.name}.operate_unary", cell, str(e), rule)
+            continue
+        want = {"atom": ["not(R1)"], "bool": ["not(wrap(R1))"], "Not": ["not(not(R2))"]}[rk]
+        ctx.check(h.out == want, m.relpath, f"{c.name}.operate_unary", cell, detail=h.out, expected=want, rule=rule)
 
 
 # ---------------------------------------------------------------- R7
